@@ -164,6 +164,7 @@ func (commander *Commander) exec(ctx context.Context, parameters Parameters, scr
 		// above) must be held until the log is persisted: the store's balances and
 		// references do not reflect a log that is still queued.
 		<-done
+		verifhook.Yield(ctx, "exec.persisted")
 
 		return chainedLog, done, nil
 	})
